@@ -14,6 +14,7 @@ import Mahotas.Proofs.C10Line
 import Mahotas.Proofs.C10Surf
 import Mahotas.Proofs.Modes
 import Mahotas.Proofs.C10Labeled
+import Mahotas.Proofs.C10Slic
 import Mahotas.Proofs.C10Flood
 import Mahotas.Proofs.C10Feat
 import Mahotas.Proofs.C10Conv
@@ -918,10 +919,72 @@ theorem C10_mode_codes_agree (m : Mahotas.Mode) :
   ⟨Mahotas.mode_codes_agree m, Mahotas.mode_tables_complete.1, Mahotas.mode_tables_complete.2.1⟩
 
 
+namespace Mahotas
+/-- the seeds along one axis: at least one, all inside (restated from `C11_slic_seeds_nonempty_in_range`, which lives downstream) -/
+theorem slic_seeds_len (S N : Nat) (hN : S / 2 < N) :
+    (1 ≤ (Mahotas.C11.seeds S N).length) ∧ ∀ y ∈ Mahotas.C11.seeds S N, y < N := by
+  constructor
+  · unfold Mahotas.C11.seeds
+    obtain ⟨n, rfl⟩ : ∃ n, N = n + 1 := ⟨N - 1, by omega⟩
+    simp [Mahotas.C11.seedLoop, hN]
+  · have : ∀ fuel y0, ∀ y ∈ Mahotas.C11.seedLoop S N fuel y0, y < N := by
+      intro fuel
+      induction fuel with
+      | zero => intro y0 y hy; simp [Mahotas.C11.seedLoop] at hy
+      | succ k ih =>
+        intro y0 y hy
+        simp only [Mahotas.C11.seedLoop] at hy
+        split at hy
+        · rcases List.mem_cons.mp hy with rfl | h
+          · assumption
+          · exact ih _ _ h
+        · simp at hy
+    exact this _ _
+end Mahotas
+
 /-! ## Round 4 — Labeled: `_labeled.cpp` (label union-find, borders, slic, is_same_labeling), `_center_of_mass` label path, `_bbox` labeled n-D path -/
 section Round4Labeled
 open Mahotas.C10Labeled
 -- (theorems of this package go between this line and the `end`)
+
+/-- **C10, `_labeled.cpp: slic` — one assignment window.** For every image size, every `S ≥ 1` and EVERY (truncated) centroid position
+inside the image — centroids are means of pixel coordinates, hence inside — the window
+`[max(0, cy-2S), min(Ny, cy+2S)) × [max(0, cx-2S), min(Nx, cx+2S))` is non-empty in both directions (so the loops
+`for (y = start_y; y != end_y; ++y)` end) and every `pos = y*Nx + x` is a cell of `distance` / `nlabels` (`N = Ny*Nx` cells; the
+pixel reads are `array.at(y, x, c)`). For a centroid outside the image the `!=` loops would not end (second example). -/
+theorem C10_slic_window_in_bounds (ny nx S cy cx : Int) (hS : 1 ≤ S) (hy0 : 0 ≤ cy) (hy : cy < ny) (hx0 : 0 ≤ cx) (hx : cx < nx) :
+    ∃ l, Mahotas.C10Slic.windowPositions ny nx S cy cx = some l ∧ Mahotas.C10Slic.inN (ny * nx) l = true ∧
+      Mahotas.C10Slic.winLo cy S < Mahotas.C10Slic.winHi ny cy S ∧ Mahotas.C10Slic.winLo cx S < Mahotas.C10Slic.winHi nx cx S := by
+  obtain ⟨l, h1, h2, h3, h4⟩ := Mahotas.C10Slic.window_ok ny nx S cy cx hS hy0 hy hx0 hx
+  exact ⟨l, h1, (Mahotas.C10Slic.inN_iff _ _).mpr h2, h3, h4⟩
+
+example : Mahotas.C10Slic.windowPositions 5 4 1 0 3 = some [1, 2, 3, 5, 6, 7] ∧
+    Mahotas.C10Slic.windowPositions 5 4 1 9 3 = none := by decide
+
+/-- **C10, `slic` — the first iteration assigns every pixel (why no label `-1` is ever used as an index).** For `S ≥ 1` and an image
+with a seed on both axes (`S/2 < Ny`, `S/2 < Nx`: the guards of `segmentation.slic`, `C11_slic_guards_imply_pre`), every pixel lies
+inside the assignment window of at least one seed centroid — so in the first iteration every `nlabels[pos]` is overwritten with a
+centroid index `< K` (a finite `D2` beats the initial `distance = 10e20`); `nlabels` is never reset afterwards, so `labels[p]`
+stays in `[0, K)` and `centroid_counts[labels[pos]]`, `centroids[labels[pos]]`, `centroids[alabels.at(y,x)]` are valid. The seeds
+themselves are inside the image and there is at least one (`C11_slic_seeds_nonempty_in_range`). -/
+theorem C10_slic_first_iteration_covers (S ny nx : Nat) (hS : 1 ≤ S) (hy : S / 2 < ny) (hx : S / 2 < nx) :
+    Mahotas.C10Slic.covered S ny nx = true ∧ 1 ≤ (Mahotas.C10Slic.seedCentroids S ny nx).length ∧
+      ∀ c ∈ Mahotas.C10Slic.seedCentroids S ny nx, c.1 < ny ∧ c.2 < nx := by
+  obtain ⟨ly, hly⟩ := Mahotas.slic_seeds_len S ny hy
+  obtain ⟨lx, hlx⟩ := Mahotas.slic_seeds_len S nx hx
+  refine ⟨Mahotas.C10Slic.covered_ok S ny nx hS hy hx, ?_, ?_⟩
+  · simp only [Mahotas.C10Slic.seedCentroids, List.length_flatMap, List.length_map]
+    obtain ⟨a, as, e⟩ := List.exists_cons_of_length_pos (show 0 < (Mahotas.C11.seeds S ny).length by omega)
+    rw [e]; simp; omega
+  · intro c hc
+    simp only [Mahotas.C10Slic.seedCentroids, List.mem_flatMap, List.mem_map] at hc
+    obtain ⟨y, hy', x, hx', rfl⟩ := hc
+    exact ⟨hly y hy', hlx x hx'⟩
+
+/-- the image smaller than `S/2` along an axis (the crash repaired by dbab495; now rejected by the wrapper): no centroid, nothing is
+covered; a 14 × 20 image with `S = 16`: two centroids cover everything -/
+example : Mahotas.C10Slic.covered 16 14 7 = false ∧ Mahotas.C10Slic.seedCentroids 16 14 7 = [] ∧
+    Mahotas.C10Slic.covered 16 14 20 = true ∧ Mahotas.C10Slic.seedCentroids 16 14 20 = [(8, 8)] := by decide +kernel
 
 /-- **C10, `_labeled.cpp: find` on ANY array.** If the parent pointers from cell `i` reach a root after `d` steps inside the array
 (`C03.RootN par i r d`: the acyclicity/closedness fact) and `d < fuel`, the recursion of `find(data, i)` ends and every
